@@ -540,6 +540,39 @@ def private_scalar_rules(prog, chk, pid):
                     "raw private keys become key objects only through the range-checked constructor", "from_string builds a Weierstrass key without from_secret_exponent")
 
 
+def explicit_params_rules(prog, chk, pid):
+    """Curve.to_der('explicit'): ECParameters = SEQUENCE { 1, FieldID { prime-field, p }, Curve { a, b }, base, order [, cofactor] } with the field elements a and b as
+    OCTET STRINGs of the byte length of the FIELD PRIME p (SEC 1, 2.3.5 / C.2) -- on curves whose order is longer than the prime (secp160r1) any other width changes the bytes"""
+    P = lambda s: "%s.%s" % (pid, s)
+    fi = prog.method(E + "curves.Curve", "to_der")
+    ex = Exec(prog, policy=lambda e, f, d: False)
+    res = ex.run(fi)
+    where = "%s:%d" % (fi.file, fi.lineno)
+    n2s = [e for e in res.events if e.kind == "call" and e.d["callee"].name == "number_to_string"]
+    is_p = lambda t: (meth_call(unsnap(t)) or (None, None))[1] == "p" and "curve" in show(meth_call(unsnap(t))[0], 4)
+    ok, why = len(n2s) == 2, "expected the two field elements a and b to be converted by number_to_string (found %d conversions)" % len(n2s)
+    if ok:
+        seen = set()
+        for e in n2s:
+            v, ln = [unsnap(x) for x in e.d["args"][:2]]
+            coeff = None
+            if v.op == "bin" and v.args[0] == "Mod" and is_p(v.args[2]):
+                mc_ = meth_call(unsnap(v.args[1]))
+                if mc_ and mc_[1] in ("a", "b") and "curve" in show(mc_[0], 4):
+                    coeff = mc_[1]
+            if coeff is None:
+                ok, why = False, "a field element is not <curve>.a() / .b() reduced modulo p (%s)" % show(v, 5)
+                break
+            seen.add(coeff)
+            if not is_p(ln):
+                ok, why = False, "coefficient %s is padded to the length of %s; a FieldElement has the byte length of the field prime p" % (coeff, show(ln, 4))
+                break
+        if ok and seen != {"a", "b"}:
+            ok, why = False, "the two field elements are not a and b (%s)" % sorted(seen)
+    chk.require(ok, P("explicit-params-field-elements"), fi.qualname, "number_to_string(curve.a() % p, p), number_to_string(curve.b() % p, p)", where,
+                "the curve coefficients of explicit parameters are reduced modulo p and encoded with the byte length of p", why)
+
+
 def run(prog, chk, tier):
     chk.explanation = ("The decoders of the vendored ECC library are interpreted with the DER primitives, byte helpers and point decoders inlined; explicit raises, assertions and "
                        "implicit raisers are collected with their handlers; implicit ones and assertions are discharged by Fourier-Motzkin entailment over path facts (length "
@@ -553,5 +586,6 @@ def run(prog, chk, tier):
     const_rules(prog, chk, "C19")
     point_encoding_rules(prog, chk, "C19")
     private_scalar_rules(prog, chk, "C19")
+    explicit_params_rules(prog, chk, "C19")
     stackrt.guarded(chk, "C19.der-codec-scenarios", der_codec_scenarios, prog, chk, "C19", tier)
     stackrt.guarded(chk, "C19.pubkey-encoding-scenarios", pubkey_encoding_scenarios, prog, chk, "C19", tier)
